@@ -902,4 +902,196 @@ Section Core.
     unfold mutate_value. destruct (mv_new m) eqn:E; try apply mutate_value_body_kv.
     apply kv_ret. intros (_ & Hn & _). exfalso. apply Hn. exact E.
   Qed.
+
+  (* ---------- collections ---------- *)
+  Lemma kp_of_kj {T} (m : M T) Q : KJ TT m Q -> KP m.
+  Proof. intros H s. destruct (H s I) as [E _]. split; auto. destruct (fst (m s)); auto. Qed.
+  Lemma kj_rdr_bind {T U} (P : state -> Prop) (m : M T) (k : T -> M U) Q :
+    rdr m -> (forall a, KJ P (k a) Q) -> KJ P (bind m k) Q.
+  Proof.
+    intros Hm Hk. eapply kj_bind; [apply kj_rdr; exact Hm|]. intros a. eapply kj_pre; [apply Hk|].
+    intros s [Ps _]; exact Ps.
+  Qed.
+  (* a judgement under a state-independent assumption *)
+  Lemma kj_assume {T} (phi : Prop) (P : state -> Prop) (m : M T) Q :
+    (phi -> KJ P m Q) -> KP m -> KJ P m (fun a s => phi -> Q a s).
+  Proof.
+    intros H Hp s Ps. split; [apply (Hp s)|]. destruct (fst (m s)) eqn:E; auto. intro Hphi.
+    destruct (H Hphi s Ps) as [_ Q']. rewrite E in Q'. exact Q'.
+  Qed.
+
+  Lemma kj_read_list (P : state -> Prop) v :
+    KJ P (read_list v) (fun p s => P s /\ nth_error (heap s) (fst p) = Some (OList (snd p))).
+  Proof.
+    intros s Ps. unfold read_list, loc_of_t, bind, read. destruct v; simpl; try (split; [apply kext_refl|exact I]).
+    destruct (nth_error (heap s) l) as [[xs| | |]|] eqn:E; simpl; split; auto using kext_refl.
+  Qed.
+  Lemma kj_read_dict (P : state -> Prop) v :
+    KJ P (read_dict v) (fun p s => P s /\ nth_error (heap s) (fst p) = Some (ODict (snd p))).
+  Proof.
+    intros s Ps. unfold read_dict, loc_of_t, bind, read. destruct v; simpl; try (split; [apply kext_refl|exact I]).
+    destruct (nth_error (heap s) l) as [[|xs | |]|] eqn:E; simpl; split; auto using kext_refl.
+  Qed.
+  Lemma kj_read_set (P : state -> Prop) v :
+    KJ P (read_set v) (fun p s => P s /\ nth_error (heap s) (fst p) = Some (OSet (snd p))).
+  Proof.
+    intros s Ps. unfold read_set, loc_of_t, bind, read. destruct v; simpl; try (split; [apply kext_refl|exact I]).
+    destruct (nth_error (heap s) l) as [[| |xs|]|] eqn:E; simpl; split; auto using kext_refl.
+  Qed.
+  Lemma kp_read_list v : KP (read_list v).
+  Proof. eapply kp_of_kj. apply kj_read_list. Qed.
+  Lemma kp_read_dict v : KP (read_dict v).
+  Proof. eapply kp_of_kj. apply kj_read_dict. Qed.
+  Lemma kp_read_set v : KP (read_set v).
+  Proof. eapply kp_of_kj. apply kj_read_set. Qed.
+  Hint Resolve kp_read_list kp_read_dict kp_read_set : kp.
+
+  Lemma rdr_get_heap : rdr get_heap.
+  Proof. intro s; reflexivity. Qed.
+  Lemma rdr_dict_assign kvs k v : rdr (dict_assign ct kvs k v).
+  Proof. unfold dict_assign. destruct (negb (hashable k)); [apply rdr_fail|]. apply rdr_bind; [apply rdr_get_heap|]. intros; apply rdr_ret. Qed.
+  Lemma rdr_set_mem xs v : rdr (set_mem ct xs v).
+  Proof. unfold set_mem. destruct (negb (hashable v)); [apply rdr_fail|]. apply rdr_bind; [apply rdr_get_heap|]. intros; apply rdr_ret. Qed.
+  Lemma rdr_set_discard xs v : rdr (set_discard ct xs v).
+  Proof. unfold set_discard. destruct (negb (hashable v)); [apply rdr_fail|]. apply rdr_bind; [apply rdr_get_heap|]. intros; apply rdr_ret. Qed.
+
+  Lemma kp_find_eq_index xs v : KP (find_eq_index ct xs v).
+  Proof. unfold find_eq_index. kgo. Qed.
+  Lemma kp_dict_lookup kvs k : KP (dict_lookup ct kvs k).
+  Proof. unfold dict_lookup. kgo. Qed.
+  Lemma kp_set_mem xs v : KP (set_mem ct xs v).
+  Proof. apply kv_rdr. apply rdr_set_mem. Qed.
+  Lemma kp_set_discard xs v : KP (set_discard ct xs v).
+  Proof. apply kv_rdr. apply rdr_set_discard. Qed.
+  Hint Resolve kp_find_eq_index kp_dict_lookup kp_set_mem kp_set_discard : kp.
+
+  Lemma kp_seq_extractor sp coll voi r bi : KP (seq_extractor ct sp coll voi r bi).
+  Proof. unfold seq_extractor. kgo. Qed.
+  Lemma kp_map_extractor coll key r : KP (map_extractor ct coll key r).
+  Proof. unfold map_extractor. kgo. Qed.
+  Lemma kp_set_extractor coll voi r : KP (set_extractor ct coll voi r).
+  Proof. unfold set_extractor. kgo. Qed.
+  Hint Resolve kp_seq_extractor kp_map_extractor kp_set_extractor : kp.
+
+  Lemma kj_write_list (P : state -> Prop) l xs ys :
+    KJ (fun s => P s /\ nth_error (heap s) l = Some (OList xs)) (write l (OList ys)) (fun _ _ => True).
+  Proof. eapply kj_conseq; [apply kj_write with (o0 := OList xs); exact I|intros s [_ H]; exact H|intros; exact I]. Qed.
+
+  Lemma kp_seq_inserter sp coll index item ins : KP (seq_inserter ct sp coll index item ins).
+  Proof.
+    unfold seq_inserter. apply kp_bind; [apply kv_check_typeM|]. intros ok. destruct (negb ok); [apply kv_fail|].
+    eapply kp_of_kj. eapply kj_bind; [apply kj_read_list|]. intros p.
+    destruct index; try apply kj_fail; cbv zeta.
+    - apply kj_write_list.
+    - destruct ins; [apply kj_write_list|]. destruct (norm_index _ _); [apply kj_write_list|apply kj_fail].
+    - destruct ins; [apply kj_write_list|]. destruct (norm_index _ _); [apply kj_write_list|apply kj_fail].
+  Qed.
+  Lemma kp_map_inserter sp coll key item : KP (map_inserter ct sp coll key item).
+  Proof.
+    unfold map_inserter. apply kp_bind; [apply kv_check_typeM|]. intros okk. destruct (negb okk); [apply kv_fail|].
+    apply kp_bind; [apply kv_check_typeM|]. intros ok. destruct (negb ok); [apply kv_fail|].
+    eapply kp_of_kj. eapply kj_bind; [apply kj_read_dict|]. intros p.
+    apply kj_rdr_bind; [apply rdr_dict_assign|]. intros kvs.
+    eapply kj_conseq; [apply kj_write with (o0 := ODict (snd p)); exact I|intros s [_ H]; exact H|intros; exact I].
+  Qed.
+  Lemma kp_set_inserter sp coll index item : KP (set_inserter ct sp coll index item).
+  Proof.
+    unfold set_inserter. apply kp_bind; [apply kv_check_typeM|]. intros ok. destruct (negb ok); [apply kv_fail|].
+    eapply kp_of_kj. eapply kj_bind; [apply kj_read_set|]. intros p.
+    apply kj_rdr_bind; [destruct (negb (is_missing index)); [apply rdr_set_discard|apply rdr_ret]|]. intros xs1.
+    apply kj_rdr_bind; [apply rdr_set_mem|]. intros b0.
+    eapply kj_conseq; [apply kj_write with (o0 := OSet (snd p)); exact I|intros s [_ H]; exact H|intros; exact I].
+  Qed.
+  Hint Resolve kp_seq_inserter kp_map_inserter kp_set_inserter : kp.
+
+  Lemma create_collection_kv sp : KV (create_collection rec sp) ns.
+  Proof. unfold create_collection. apply instantiate_ty_kv. Qed.
+  Lemma kp_create_collection sp : KP (create_collection rec sp).
+  Proof. eapply kp_of_kv; apply create_collection_kv. Qed.
+  Lemma kp_rec_mv m : KP (rec (KMutateValue m)).
+  Proof. apply rec_kp. exact I. Qed.
+  Hint Resolve kp_create_collection kp_rec_mv : kp.
+
+  Lemma mutate_collection_kv fam sp inst coll io :
+    KV (mutate_collection ct rec fam sp inst coll io) (fun r => mns coll -> ns r).
+  Proof.
+    unfold mutate_collection.
+    eapply kv_bind with (Q := fun c1 => mns coll -> ns c1).
+    { destruct (is_missing coll) eqn:E.
+      - eapply kv_weaken; [apply create_collection_kv|]. auto.
+      - apply kv_ret. intro H. apply mns_ns; auto. }
+    intros coll1 H1. apply kv_bind with (Q := fun _ => True); [destruct fam; kgo|]. intros ex _. cbv zeta.
+    apply kv_bind with (Q := fun _ => True); [kgo|]. intros ni _.
+    apply kv_bind with (Q := fun _ => True); [destruct fam; kgo|]. intros _ _. apply kv_ret. exact H1.
+  Qed.
+  Lemma kp_mutate_collection fam sp inst coll io : KP (mutate_collection ct rec fam sp inst coll io).
+  Proof. eapply kp_of_kv; apply mutate_collection_kv. Qed.
+
+  Lemma add_items_kv fam sp inst coll items : KV (add_items ct rec fam sp inst coll items) (fun r => ns coll -> ns r).
+  Proof.
+    unfold add_items. destruct items; try apply kv_fail.
+    eapply kv_bind; [apply kv_read|]. intros o _.
+    destruct fam, o; try apply kv_fail;
+      (apply kv_foldM with (P := fun c => ns coll -> ns c); [|auto]; intros acc x _ Hacc;
+       eapply kv_weaken; [apply mutate_collection_kv|]; intros r Hr Hc; apply Hr; apply ns_mns; auto).
+  Qed.
+  Lemma prepare_items_kv fam sp inst coll : KV (prepare_items ct rec fam sp inst coll) (fun r => ns coll -> ns r).
+  Proof.
+    unfold prepare_items. destruct fam.
+    - eapply kv_bind; [apply kp_read_list|]. intros p _.
+      apply kv_foldM with (P := fun c => ns coll -> ns c); [|auto]. intros acc x _ Hacc.
+      eapply kv_weaken; [apply mutate_collection_kv|]. intros r Hr Hc. apply Hr. apply ns_mns. auto.
+    - apply add_items_kv.
+    - eapply kv_bind; [apply kp_read_set|]. intros p _.
+      apply kv_foldM with (P := fun c => ns coll -> ns c); [|auto]. intros acc x _ Hacc.
+      eapply kv_weaken; [apply mutate_collection_kv|]. intros r Hr Hc. apply Hr. apply ns_mns. auto.
+  Qed.
+  Lemma kp_truthy v : KP (truthy_collection v).
+  Proof. unfold truthy_collection. destruct v; kgo. Qed.
+  Hint Resolve kp_truthy : kp.
+
+  Lemma coll_prepare_kv sp inst coll : KV (coll_prepare ct rec sp inst coll) (fun r => ns coll -> ns r).
+  Proof.
+    unfold coll_prepare. destruct (family_of (a_ty sp)) as [fam|]; [|apply kv_ret; auto].
+    eapply kv_bind with (Q := fun c1 => ns coll -> ns c1).
+    { destruct coll; try (apply kv_ret; auto); (eapply kv_weaken; [apply create_collection_kv|]; auto). }
+    intros coll1 H1. apply kv_bind with (Q := fun _ => True); [apply kv_check_typeM|]. intros ok _.
+    destruct (negb ok).
+    - eapply kv_bind; [apply create_collection_kv|]. intros fresh Hf.
+      eapply kv_weaken; [apply add_items_kv|]. auto.
+    - apply kv_bind with (Q := fun _ => True); [apply kp_truthy|]. intros t _.
+      destruct (a_prepare_item sp); [|apply kv_ret; exact H1]. destruct t; [|apply kv_ret; exact H1].
+      apply kv_bind with (Q := fun _ => True); [apply kp_loc_of|]. intros l _.
+      apply kv_bind with (Q := fun _ => True); [apply kv_read|]. intros o _.
+      apply kv_bind with (Q := fun _ => True); [apply kv_alloc|]. intros l' _.
+      eapply kv_weaken; [apply prepare_items_kv|]. intros r Hr _. apply Hr. reflexivity.
+  Qed.
+
+  Lemma rec_kv_mv m : KV (rec (KMutateValue m)) (fun r => mv_ns m -> ns r).
+  Proof.
+    intros s. destruct (Hrec (KMutateValue m) I s I) as [E Q]. split; auto.
+  Qed.
+
+  Lemma prepare_attr_value_kv sp inst value attrs :
+    KV (prepare_attr_value ct rec sp inst value attrs) (fun r => nu value -> ofn_ns (a_prepare sp) = true -> ns r).
+  Proof.
+    unfold prepare_attr_value.
+    assert (Hgen : KV
+      (v <- rec (KMutateValue
+                  (mkmv VMissing value false
+                        (match a_prepare sp with Some f => PAttr f | None => PNone end)
+                        attrs (Some (ctor_of_ty (a_ty sp))) (Some (a_ty sp)) None [] false)) ;;
+       if ty_is_collection (a_ty sp) then coll_prepare ct rec sp inst v else ret v)
+      (fun r => nu value -> ofn_ns (a_prepare sp) = true -> ns r)).
+    { eapply kv_bind; [apply rec_kv_mv|]. intros v Hv.
+      assert (Hv' : nu value -> ofn_ns (a_prepare sp) = true -> ns v).
+      { intros Hn Hp. apply Hv. unfold mv_ns; simpl. split; [left; reflexivity|]. split; [exact Hn|].
+        split; [destruct (a_prepare sp); simpl; auto|]. repeat split; auto. discriminate. }
+      destruct (ty_is_collection (a_ty sp)); [|apply kv_ret; exact Hv'].
+      eapply kv_weaken; [apply coll_prepare_kv|]. auto. }
+    destruct value; try exact Hgen. apply kv_ret. intros H; exfalso; apply H; reflexivity.
+  Qed.
+  Lemma kp_prepare_attr_value sp inst value attrs : KP (prepare_attr_value ct rec sp inst value attrs).
+  Proof. eapply kp_of_kv; apply prepare_attr_value_kv. Qed.
+  Hint Resolve kp_prepare_attr_value kp_mutate_collection : kp.
 End Core.
